@@ -122,4 +122,13 @@ theorem c01_get_content_is_source_get_content (decompress : Nat → Bytes → Op
           (modelGetBytes decompress f) i :=
   gen_contentGet decompress f i
 
+/-- **The address a content gets and the offsets its cluster records are the source's**:
+    `ClusterCreator::add_content` (`creator/content_pack/cluster.rs`) translated on every run, applied to the
+    end offsets of a cluster of the creator model, returns (cluster index, number of blobs so far) — the address
+    `Creator.add` records — and the end offsets of the cluster with the new blob appended. -/
+theorem c01_cluster_step_is_source_step (c : Cluster) (d : Bytes) (h : c.blobs.length < Consts.maxBlobsPerCluster) :
+    Generated.clusterAddContent (endOffsets c.blobs 0) c.idx d.length =
+      some (endOffsets (c.blobs ++ [d]) 0, (c.idx, c.blobs.length)) :=
+  gen_clusterAddContent c d h
+
 end Jubako
